@@ -367,7 +367,7 @@ def c20(c):
                    "MPI runs use the in-process shim; per-rank call logs are concatenated in rank order (contiguity is C16's business)"])
 def c19(c):
     c.std([dict(src='c19_state.cpp', build='asan', shards={'quick': 5, 'thorough': 5}, extra_inc=SHIM, libs=['-pthread'])])
-    for k in ('first_states_checked', 'state_transitions_checked', 'coordinates_predicted', 'channels_predicted', 'runs_serial', 'runs_resumed', 'runs_mpi', 'runs_mpi-resumed'):
+    for k in ('first_states_checked', 'state_transitions_checked', 'coordinates_predicted', 'channels_predicted', 'runs_serial', 'runs_resumed', 'runs_mpi', 'runs_mpi-resumed', 'runs_rolled-back-and-rerun'):
         c.require(k)
 
 
@@ -387,7 +387,7 @@ def c19(c):
 def c01(c):
     c.std([dict(src='c01_lattice.cpp', build='asan', shards={'quick': 5, 'thorough': 5}),
            dict(src='c01_lattice.cpp', build='clang', shards={'quick': 1, 'thorough': 5}, tiers=('thorough',))])
-    for k in ('plain_lattices', 'vegas_lattices', 'mc_lattices', 'mc_lattices_exact_integral', 'mc_weights_checked_per_call', 'lattice_points', 'vegas_weights_checked_in_more_than_8_dimensions'):
+    for k in ('plain_lattices', 'vegas_lattices', 'mc_lattices', 'mc_lattices_exact_integral', 'mc_weights_checked_per_call', 'lattice_points', 'vegas_weights_checked_in_more_than_8_dimensions', 'lattices_with_values_above_sqrt_max'):
         c.require(k)
 
 
